@@ -378,6 +378,70 @@ func specialPlans(rng *rand.Rand, cfg Cfg) []HostilePlan {
 			HostilePlan{Label: "play-udp-good-ports", Chunks: [][]byte{(&RawReq{Method: "SETUP", URL: u + "/trackID=0", Headers: hdr(1, [2]string{"Transport", "RTP/AVP;unicast;client_port={{GP}}-{{GP1}}"})}).Bytes(), play(2)}, Silent: true, Drain: true},
 		)
 	}
+	return append(plans, round4Plans(cfg)...)
+}
+
+// round4Plans: peers that abort one half of an HTTP tunnel, publishers whose datagrams keep arriving while their
+// session is torn down, and players that stop reading and then send a request that ends the session's writer
+// while it is stuck in a socket write.
+func round4Plans(cfg Cfg) []HostilePlan {
+	u := baseURL(cfg, streamPath)
+	pu := baseURL(cfg, "/pub")
+	setupTCP := func(cseq, track int, sess bool) []byte {
+		r := &RawReq{Method: "SETUP", URL: fmt.Sprintf("%s/trackID=%d", u, track), Headers: hdr(cseq, [2]string{"Transport", fmt.Sprintf("RTP/AVP/TCP;unicast;interleaved=%d-%d", 2*track, 2*track+1)})}
+		if sess {
+			r.Headers = append(r.Headers, [2]string{"Session", "{{SID}}"})
+		}
+		return r.Bytes()
+	}
+	req := func(method, url string, cseq int) []byte {
+		return (&RawReq{Method: method, URL: url, Headers: hdr(cseq, [2]string{"Session", "{{SID}}"})}).Bytes()
+	}
+	var plans []HostilePlan
+	// (1) HTTP tunnel, one half aborted with a TCP RST at several points of the conversation
+	conv := [][]byte{(&RawReq{Method: "OPTIONS", URL: u, Headers: hdr(1)}).Bytes(), setupTCP(2, 0, false), setupTCP(3, 1, true), req("PLAY", u, 4), req("OPTIONS", u, 5)}
+	for _, half := range []string{"post", "get"} {
+		for _, at := range []int{0, 1, 4, 5} {
+			plans = append(plans, HostilePlan{Label: fmt.Sprintf("tunnel-rst-%s-%d", half, at), B64: true, Chunks: conv, PauseMs: 10,
+				RSTHalf: half, RSTAfter: at, Drain: true, Silent: true})
+		}
+	}
+	// (2) a UDP publisher (one media, two formats) whose RTP and sender reports keep arriving while its session ends
+	if cfg.UDP && !cfg.TLS {
+		sdp := "v=0\r\no=- 0 0 IN IP4 127.0.0.1\r\ns=x\r\nc=IN IP4 0.0.0.0\r\nt=0 0\r\n" +
+			"m=video 0 RTP/AVP 96 97\r\na=rtpmap:96 H264/90000\r\na=fmtp:96 packetization-mode=1\r\na=rtpmap:97 H265/90000\r\na=control:trackID=0\r\n"
+		announce := (&RawReq{Method: "ANNOUNCE", URL: pu, Headers: hdr(1, [2]string{"Content-Type", "application/sdp"}), Body: sdp}).Bytes()
+		setup := (&RawReq{Method: "SETUP", URL: pu + "/trackID=0", Headers: hdr(2, [2]string{"Transport", "RTP/AVP;unicast;client_port={{HP}}-{{HP1}};mode=record"})}).Bytes()
+		sr := func(ssrc byte) []byte {
+			return []byte{0x80, 200, 0, 6, 0, 0, 0, ssrc, 1, 2, 3, 4, 5, 6, 7, 8, 0, 0, 0, 1, 0, 0, 0, 1, 0, 0, 0, 1}
+		}
+		rtp := func(pt, ssrc byte) []byte {
+			return []byte{0x80, pt, 0, 0, 0, 0, 0, 1, 0, 0, 0, ssrc, 0x02, 1, 2, 3}
+		}
+		flood := []UDPSend{{Data: rtp(96, 2)}, {FromRTCP: true, ToRTCP: true, Data: sr(2)}, {Data: rtp(97, 3)}, {FromRTCP: true, ToRTCP: true, Data: sr(3)},
+			{FromRTCP: true, ToRTCP: true, Data: sr(2)}, {FromRTCP: true, ToRTCP: true, Data: rtcpRR()}}
+		for _, end := range [][2]string{{"teardown", "TEARDOWN"}, {"play", "PLAY"}, {"announce", "ANNOUNCE"}} {
+			plans = append(plans, HostilePlan{Label: "udp-record-flood-during-" + end[0], BindUDP: true, UDPFlood: flood, UDPFloodFrom: 3, UDPFloodRTPMs: 8, DelaysMs: []int{0, 0, 0, 25},
+				Chunks: [][]byte{announce, setup, req("RECORD", pu, 3), req(end[1], pu, 4)}, Rounds: 14, Drain: true, Silent: false})
+		}
+	}
+	// (3) a TCP player stops reading; once the session's writer is stuck in a socket write it sends a request that
+	// ends the writer (PAUSE, TEARDOWN), a second PLAY, or closes
+	for _, end := range [][2]string{{"pause", "PAUSE"}, {"teardown", "TEARDOWN"}, {"play", "PLAY"}, {"close", ""}} {
+		for _, d := range []int{0, 100, 200} {
+			p := HostilePlan{Label: fmt.Sprintf("stuck-writer-%s-%d", end[0], d), SmallRcv: true, StallAfter: 3, WaitQueueFull: 3, DelaysMs: []int{0, 0, 0, d},
+				Chunks: [][]byte{setupTCP(1, 0, false), setupTCP(2, 1, true), req("PLAY", u, 3), req(end[1], u, 4)}, Drain: true, Silent: true}
+			if end[1] == "" {
+				p.Chunks[3] = nil
+				p.Silent = false
+			}
+			plans = append(plans, p)
+		}
+	}
+	for _, tun := range []string{"ws", "http"} {
+		plans = append(plans, HostilePlan{Label: "stuck-writer-pause-" + tun + "-100", WS: tun == "ws", B64: tun == "http", SmallRcv: true, StallAfter: 3, WaitQueueFull: 3, DelaysMs: []int{0, 0, 0, 100},
+			Chunks: [][]byte{setupTCP(1, 0, false), setupTCP(2, 1, true), req("PLAY", u, 3), req("PAUSE", u, 4)}, Drain: true, Silent: true})
+	}
 	return plans
 }
 
@@ -454,6 +518,11 @@ func genScenario(rng *rand.Rand, seed uint64, idx int, dist func(string)) Scenar
 			sc.PubBurst = 12
 		}
 	}
+	for _, p := range sc.Peers {
+		if strings.HasPrefix(p.Label, "stuck-writer-") && sc.PubBurst < 12 {
+			sc.PubBurst, sc.PubPayload = 4, 1200 // the socket of a peer that does not read fills quickly
+		}
+	}
 	return sc
 }
 
@@ -508,6 +577,68 @@ func corpusScenarios() []Scenario {
 			}
 			return sc
 		}(),
+		{Name: "scenario-corpus-backchannel", Cfg: Cfg{Handler: "full", UDP: true, BackCh: true}, GoodUDP: true, Peers: backChannelPlans(Cfg{Handler: "full", UDP: true, BackCh: true})},
 		{Name: "scenario-corpus-tls-silent", Cfg: Cfg{Handler: "full", TLS: true}, Peers: pick("silent-raw", "silent")},
+		{Name: "scenario-corpus-tunnel-rst-tls", Cfg: Cfg{Handler: "full", TLS: true}, Peers: pickFrom(round4Plans(Cfg{Handler: "full", TLS: true}), "tunnel-rst-post-0", "tunnel-rst-post-4", "tunnel-rst-get-1", "tunnel-rst-post-5")},
+		{Name: "scenario-corpus-tunnel-rst-tls-udp", Cfg: Cfg{Handler: "full", UDP: true, TLS: true}, Peers: pickFrom(round4Plans(Cfg{Handler: "full", UDP: true, TLS: true}), "tunnel-rst-post-1", "tunnel-rst-get-4", "tunnel-rst-get-5")},
+		{Name: "scenario-corpus-tunnel-rst-plain", Cfg: cfg, GoodUDP: true, Peers: pick("tunnel-rst-post-1", "tunnel-rst-get-0", "tunnel-rst-post-4")},
+		{Name: "scenario-corpus-udp-record-flood", Cfg: Cfg{Handler: "full", UDP: true, SlowRTP: true}, GoodUDP: true, Peers: pick("udp-record-flood-during-teardown", "udp-record-flood-during-play", "udp-record-flood-during-teardown")},
+		{Name: "scenario-corpus-stuck-writer", Cfg: cfg, PubBurst: 4, PubPayload: 1200, Peers: pick("stuck-writer-pause-0", "stuck-writer-pause-100", "stuck-writer-teardown-100", "stuck-writer-play-200")},
+		{Name: "scenario-corpus-stuck-writer-2", Cfg: Cfg{Handler: "full"}, PubBurst: 4, PubPayload: 1200, Peers: pick("stuck-writer-pause-200", "stuck-writer-teardown-0", "stuck-writer-close-100", "stuck-writer-pause-ws-100")},
+	}
+}
+
+func pickFrom(plans []HostilePlan, labels ...string) []HostilePlan {
+	var out []HostilePlan
+	for _, l := range labels {
+		for _, p := range plans {
+			if p.Label == l {
+				out = append(out, p)
+			}
+		}
+	}
+	return out
+}
+
+// backChannelPlans: a peer sets up the ONVIF back channel (trackID=2) of a play session, sends audio on it so
+// that the server's receiver reports flow, learns the SSRC the server uses there and sends a receiver
+// report about that SSRC (and about others).
+func backChannelPlans(cfg Cfg) []HostilePlan {
+	u := baseURL(cfg, streamPath)
+	rr := func(ssrc []byte) []byte {
+		b := []byte{0x81, 201, 0, 7, 0, 0, 0, 9}
+		b = append(b, ssrc...)
+		return append(b, 0, 0, 0, 5, 0, 0, 0, 9, 0, 0, 0, 0, 0, 0, 0, 0, 0, 0, 0, 0)
+	}
+	own := []byte{0xDE, 0xAD, 0xBE, 0xEF}
+	var rtpUp []UDPSend
+	for i := 0; i < 6; i++ {
+		rtpUp = append(rtpUp, UDPSend{Data: append([]byte{0x80, 8, 0, byte(i), 0, 0, 0, byte(i), 0, 0, 0, 7}, make([]byte, 160)...)})
+	}
+	dg := append(append([]UDPSend{}, rtpUp...),
+		UDPSend{FromRTCP: true, ToRTCP: true, Data: rr([]byte{1, 2, 3, 4})},
+		UDPSend{FromRTCP: true, ToRTCP: true, LearnSSRC: true, Data: rr(own)},
+		UDPSend{FromRTCP: true, ToRTCP: true, Data: rr(own)})
+	setup := func(cseq, track int, sess bool, tr string) []byte {
+		r := &RawReq{Method: "SETUP", URL: fmt.Sprintf("%s/trackID=%d", u, track), Headers: hdr(cseq, [2]string{"Transport", tr}, [2]string{"Require", "www.onvif.org/ver20/backchannel"})}
+		if sess {
+			r.Headers = append(r.Headers, [2]string{"Session", "{{SID}}"})
+		}
+		return r.Bytes()
+	}
+	play := (&RawReq{Method: "PLAY", URL: u, Headers: hdr(9, [2]string{"Session", "{{SID}}"})}).Bytes()
+	describe := (&RawReq{Method: "DESCRIBE", URL: u, Headers: hdr(1, [2]string{"Require", "www.onvif.org/ver20/backchannel"})}).Bytes()
+	var tcpFrames [][]byte
+	for i := 0; i < 4; i++ {
+		tcpFrames = append(tcpFrames, frameBytes(0, append([]byte{0x80, 8, 0, byte(i), 0, 0, 0, byte(i), 0, 0, 0, 7}, make([]byte, 160)...)))
+	}
+	tcpFrames = append(tcpFrames, frameBytes(1, rr([]byte{1, 2, 3, 4})), frameBytes(1, rr([]byte{0, 0, 0, 0})), frameBytes(1, rtcpRR()))
+	return []HostilePlan{
+		{Label: "backchannel-udp-rr-own-ssrc", BindUDP: true, UDP: dg, PauseMs: 30,
+			Chunks: [][]byte{describe, setup(2, 2, false, "RTP/AVP;unicast;client_port={{HP}}-{{HP1}}"), play}, Silent: true, Drain: true},
+		{Label: "backchannel-udp-all-medias", BindUDP: true, UDP: dg, PauseMs: 30,
+			Chunks: [][]byte{describe, setup(2, 2, false, "RTP/AVP;unicast;client_port={{HP}}-{{HP1}}"), setup(3, 0, true, "RTP/AVP;unicast;client_port=35700-35701"), play}, Silent: true, Drain: true},
+		{Label: "backchannel-tcp-rr", PauseMs: 10,
+			Chunks: append([][]byte{describe, setup(2, 2, false, "RTP/AVP/TCP;unicast;interleaved=0-1"), play}, tcpFrames...), Silent: true, Drain: true},
 	}
 }
